@@ -658,3 +658,131 @@ class DiskCacheDatasetC(ClassContract):
 
 
 CONTRACTS = [CacheDatasetC(), SerialisersC(), CacheWrapperC(), _mk_dcw(True), _mk_dcw(False), DiskCacheDatasetC()]
+
+
+# =============================================================== C10: eager caching = snapshot (new / from_dataset / Dataset.cache)
+class SnapshotV(Val):
+    """list(<one pass over a dataset>): the examples (or items) as they were at call time"""
+    kind = 'snapshot'
+
+    def __init__(self, source, with_key, derived=None):
+        self.source, self.with_key, self.derived = source, with_key, derived
+
+
+def _snap_hooks():
+    def list_hook(eng, st, x):
+        from pyvc.engine import IterV, StreamV, GenStreamV
+        if isinstance(x, (DSRefV, StageV)):
+            st.ghost['passes'] = st.ghost.get('passes', ()) + (('values', x),)
+            return [(st, SnapshotV(x, False))]
+        if isinstance(x, OpaqueV) and x.what == 'items-of-dataset':
+            # ds.items() iterated once: refuses with ItemsNotDefined when the pipeline has no items
+            res = []
+            d = x.of
+            for s2, has in eng.branch(st, smt.ITEMS(d.t)):
+                if has:
+                    s2.ghost['passes'] = s2.ghost.get('passes', ()) + (('items', d),)
+                    res.append((s2, SnapshotV(d, True)))
+                else:
+                    eng.raise_(s2, eng.new_exc(s2, 'ItemsNotDefined'))
+            return res
+        if isinstance(x, OpaqueV) and x.what == 'map(itemgetter(1), items)':
+            return [(st, SnapshotV(x.of.source, True, derived='values-of-items'))]
+        return None
+
+    def any_method(eng, st, recv, name, args, kwargs):
+        if isinstance(recv, DSRefV) and name == 'items' and not args:
+            o = OpaqueV('items-of-dataset')
+            o.of = recv
+            return [(st, o)]
+        return None
+
+    def builtin_hook(eng, st, name, args, kwargs, node):
+        if name == 'dict' and len(args) == 1 and isinstance(args[0], SnapshotV) and args[0].with_key:
+            v = SnapshotV(args[0].source, True, derived='dict')
+            v.nodup = smt.fresh('keys_are_unique', smt.Bool)
+            return [(st, v)]
+        from pyvc.engine import ItemGetterV
+        if name == 'map' and len(args) == 2 and isinstance(args[0], ItemGetterV) and isinstance(args[1], SnapshotV):
+            o = OpaqueV('map(itemgetter(1), items)')
+            o.of = args[1]
+            return [(st, o)]
+        return None
+
+    def len_hook(eng, st, x):
+        if isinstance(x, SnapshotV):
+            n = smt.fresh('snap_len', smt.Int)
+            st.pc.append(n >= 0)
+            if x.derived == 'dict':
+                x.len_term = n
+            else:
+                x.len_term = n
+            return [(st, IntV(n))]
+        return None
+
+    def eq_hook(eng, st, a, b):
+        return None
+
+    def resolve_call(eng, st, f, args, kwargs, node):
+        if isinstance(f, BuiltinV) and f.name in ('repo.from_dict', 'repo.from_list', 'repo.from_dataset', 'repo.from_file'):
+            return [(st, StageV(f.name[5:], list(args), dict(kwargs)))]
+        return None
+    return dict(list_hook=list_hook, any_method=any_method, builtin_hook=builtin_hook, len_hook=len_hook,
+                resolve_call=resolve_call)
+
+
+def _from_dataset_post(S, o):
+    env = S.eng.entry_env
+    d = env['examples']
+    passes = S.st.ghost.get('passes', ())
+    if o.kind == 'raise':
+        return [('C10:from_dataset-does-not-raise-by-itself', smt.F)]
+    v = o.value
+    ok = isinstance(v, StageV) and v.cls in ('from_dict', 'from_list') and v.args and isinstance(v.args[0], SnapshotV) \
+        and v.args[0].source is d
+    out = [('C10:eager-caching-stores-a-snapshot-taken-by-passes-over-the-pipeline-at-call-time', z3.BoolVal(bool(ok))),
+           ('C10:at-most-one-successful-pass(one-evaluation-per-example)', z3.BoolVal(len(passes) == 1)),
+           ('C09:the-snapshot-goes-through-the-serialising-constructor',
+            z3.BoolVal(bool(ok) and v.kwargs.get('immutable_warranty') is env['immutable_warranty']))]
+    return out
+
+
+def _cache_factory_post(lazy):
+    def post(S, o):
+        from contracts.factories import is_self
+        d = S.eng.entry_env['self']
+        if o.kind == 'raise':
+            return [('cache:rejects-only-unsuitable-input',
+                     z3.And(exc_is(o.exc, S.eng.hier, 'AssertionError'),
+                            z3.Not(smt.IDX(d.t)) if lazy else z3.Not(z3.Or(smt.IDX(d.t), smt.ORD(d.t)))))]
+        v = o.value
+        if lazy:
+            ok = isinstance(v, StageV) and v.cls == 'CacheDataset' and isinstance(v.args[0], DSRefV)
+            return [('C10:lazy-cache-builds-CacheDataset(self, keep_mem_free or 8 GB)', z3.BoolVal(bool(ok))),
+                    ('cache:input-is-self', is_self(S, v.args[0]) if ok else smt.F),
+                    ('C08:construction-evaluates-nothing', z3.BoolVal(not S.st.ghost.get('log') and not S.st.ghost.get('passes')))]
+        ok = isinstance(v, StageV) and v.cls == 'from_dataset' and v.args and isinstance(v.args[0], DSRefV)
+        return [('C10:eager-cache-is-new(self)(a-snapshot-at-call-time)', z3.BoolVal(bool(ok))),
+                ('cache:input-is-self', is_self(S, v.args[0]) if ok else smt.F)]
+    return post
+
+
+class FromDatasetC(FuncContract):
+    mod = 'core'
+    cls = None
+    methods = {'from_dataset': [Variant('snapshot', params={'examples': 'ds', 'immutable_warranty': (lambda e, s: StrV('pickle')),
+                                                            'name': 'none'},
+                                        post=_from_dataset_post, hooks=_snap_hooks(), props=('C10', 'C09'))]}
+
+
+from contracts.factories import DatasetC as _DatasetC     # noqa
+
+
+class CacheFactoryC(_DatasetC):
+    methods = {'cache': [Variant('lazy', params={'lazy': 'true', 'keep_mem_free': 'none'}, post=_cache_factory_post(True),
+                                 hooks=_snap_hooks(), props=('C10', 'C08')),
+                         Variant('eager', params={'lazy': 'false', 'keep_mem_free': 'none'}, post=_cache_factory_post(False),
+                                 hooks=_snap_hooks(), props=('C10',))]}
+
+
+CONTRACTS = CONTRACTS + [FromDatasetC(), CacheFactoryC()]
